@@ -198,8 +198,8 @@ CallResult perform(Subject& s, const gen::Program& prog, const Op& op, bool* mus
       case kBadAlign: { static const uint32_t bad[] = {3, 5, 6, 7, 9, 12, 100, 1000, 0x80000001u, 65537}; *must_fail_out = true; s.last_must_fail_other = true; r.err = e.align(AlignMode(op.a[1] % 3), bad[size_t(op.a[0]) % 10]); break; }
       case kBadEmbedLabel: {
         Label l = note_label(select_label(s.labels, op.a[0], s.code), s.code);
-        static const size_t sizes[] = {3, 5, 6, 7, 9, 16, 255, 0, 4, 8};
-        size_t sz = sizes[size_t(op.a[1]) % 10];
+        static const size_t sizes[] = {3, 5, 6, 7, 9, 16, 255, 0, 4, 8, 1, 2};
+        size_t sz = sizes[size_t(op.a[1]) % 12];
         if (!s.code.is_label_valid(l) || (sz != 0 && sz != 1 && sz != 2 && sz != 4 && sz != 8)) *must_fail_out = true;
         if (sz != 0 && sz != 1 && sz != 2 && sz != 4 && sz != 8) s.last_must_fail_other = true;
         r.err = e.embed_label(l, sz);
@@ -207,8 +207,8 @@ CallResult perform(Subject& s, const gen::Program& prog, const Op& op, bool* mus
       }
       case kBadEmbedDelta: {
         Label a = note_label(select_label(s.labels, op.a[0], s.code), s.code), b = note_label(select_label(s.labels, op.a[1], s.code), s.code);
-        static const size_t sizes[] = {3, 5, 6, 7, 9, 16, 255, 0, 4, 8};
-        size_t sz = sizes[size_t(op.a[2]) % 10];
+        static const size_t sizes[] = {3, 5, 6, 7, 9, 16, 255, 0, 4, 8, 1, 2};
+        size_t sz = sizes[size_t(op.a[2]) % 12];
         if (!s.code.is_label_valid(a) || !s.code.is_label_valid(b) || (sz != 0 && sz != 1 && sz != 2 && sz != 4 && sz != 8)) *must_fail_out = true;
         if (sz != 0 && sz != 1 && sz != 2 && sz != 4 && sz != 8) s.last_must_fail_other = true;
         r.err = e.embed_label_delta(a, b, sz);
